@@ -32,7 +32,7 @@ BOUNDS = {
 
 
 def shift_values(N):
-    vals = [1, -1, 2, -2, 0.5, -0.5, 1.5, -1.5, N - 1, -(N - 1), N, -N, N + 2, -(N + 2), 0.25, -2.75, 0]
+    vals = [1, -1, 2, -2, 0.5, -0.5, 1.5, -1.5, N - 1, -(N - 1), N, -N, N + 2, -(N + 2), 0.25, -2.75, 0, 1e19, -3e30]     # (the last two: shifts of more than 2^63 samples)
     out = []
     for v in vals:
         if v not in out:
@@ -90,7 +90,12 @@ def fillings(N, shape):
     mixed = [[0.5, -2, 1.5, -0.25, N + 2, -1], [-(N - 1), 1, 0, 2.5, -0.5, 3], [1, 2, 0.25, 3, N - 1, 0.5],
              [-1, -2.75, -0.5, -N, -1.5, -3], [0, 0, 1.5, 0, -2, 0], [-0.0, 1.5, -0.0, -2, 0.0, -0.0], [2, -0.0, -0.0, -0.0, -0.0, -0.0]]
     for i, m in enumerate(mixed):
-        yield f"mixed{i}", np.array([m[j % len(m)] for j in range(size)], dtype=float).reshape(shape)
+        arr = np.array([m[j % len(m)] for j in range(size)], dtype=float).reshape(shape)
+        yield f"mixed{i}", arr
+        if arr.ndim >= 2 and min(arr.shape[-2:]) > 1 and i < 2:
+            # the same values as arrays whose memory order is not the index order
+            yield f"mixed{i} (Fortran-ordered)", np.asfortranarray(arr)
+            yield f"mixed{i} (transposed view)", np.ascontiguousarray(np.swapaxes(arr, -1, -2)).swapaxes(-1, -2)
 
 
 def make_signal(N, dtype, ss, data, rate="8Hz"):
